@@ -1370,3 +1370,65 @@ func verifNormalizeTwice(s string) (a, b string, ok1, ok2 bool) {
 var _ strings.Builder
 var _ = io.EOF
 var _ = httpcookie.IsCookieNameValid
+
+// ---------------------------------------------------------------------------
+// 2g. Channel harness for an ARRAY path parameter (properties C06 / C01), style simple: what the generated
+//     client does for a two-item array (NewPathEncoder, EncodeArray with one EncodeValue per item, Result),
+//     the percent-decoding step in front of the decoder (url.PathUnescape), and what the generated server
+//     does (NewPathDecoder, DecodeArray with one DecodeValue per item). For every two non-empty items
+//     free of the delimiter the decoder's callback receives exactly the two items, in order, and nothing
+//     fails; an item containing the delimiter is refused by the encoder (nothing is sent).
+// ---------------------------------------------------------------------------
+
+//@ lemma unescJoin2(a string, b string)
+//@   uses pathEscapeInverse, pathUnescapeCat, pathUnescapePlain
+//@   ensures ok:  verifUnescOK(url.PathEscape(a) + "," + url.PathEscape(b))
+//@   ensures val: verifUnescVal(url.PathEscape(a) + "," + url.PathEscape(b)) == a + "," + b
+//@   assert comma: verifUnescOK(",") && verifUnescVal(",") == ","
+//@   assert tail:  verifUnescOK("," + url.PathEscape(b)) && verifUnescVal("," + url.PathEscape(b)) == "," + b
+//@   trigger verifUnescVal(url.PathEscape(a) + "," + url.PathEscape(b))
+
+//@ lemma pieces2(a string, b string)
+//@   uses indexBCat, indexBNone
+//@   requires free: noByte(a, ',') && noByte(b, ',') && len(b) > 0
+//@   ensures items: vSeqEq(pieces(a + "," + b, ','), []string{a, b})
+//@   ensures ok:    okPieces(a + "," + b, ',')
+//@   assert first: indexB(a + "," + b, ',') == len(a)
+//@   assert last:  indexB(b, ',') < 0
+//@   trigger pieces(a + "," + b, ',')
+
+// The client half: the text the encoder puts on the wire for a two-item array, style simple.
+// @ func verifPathArray2Wire(param string, explode bool, a string, b string) (s string, err error)
+// @   ensures refused: !(noByte(a, ',') && noByte(b, ',')) ==> err != nil
+// @   ensures wire:    noByte(a, ',') && noByte(b, ',') ==> err == nil && s == url.PathEscape(a) + "," + url.PathEscape(b)
+func verifPathArray2Wire(param string, explode bool, a, b string) (string, error) {
+	e := NewPathEncoder(PathEncoderConfig{Param: param, Style: PathStyleSimple, Explode: explode})
+	if err := e.EncodeArray(func(e Encoder) error {
+		if err := e.EncodeValue(a); err != nil {
+			return err
+		}
+		return e.EncodeValue(b)
+	}); err != nil {
+		return "", err
+	}
+	return e.Result()
+}
+
+// @ func verifPathArray2Channel(param string, explode bool, a string, b string, f func(d Decoder) error) (err error)
+// @   callback f(d Decoder) log vals d.(*constval).v
+// @   requires nonempty: len(a) > 0 && len(b) > 0
+// @   modifies cb:f
+// @   uses unescJoin2, pieces2
+// @   ensures refused:   !(noByte(a, ',') && noByte(b, ',')) ==> err != nil && vSeqEq(vCbLog(f, "vals"), old(vCbLog(f, "vals")))
+// @   ensures delivered: noByte(a, ',') && noByte(b, ',') && vCbOK(f) ==> err == nil && vSeqEq(vCbLog(f, "vals"), vCat(old(vCbLog(f, "vals")), []string{a, b}))
+func verifPathArray2Channel(param string, explode bool, a, b string, f func(d Decoder) error) error {
+	s, err := verifPathArray2Wire(param, explode, a, b)
+	if err != nil {
+		return err
+	}
+	u, err := url.PathUnescape(s)
+	if err != nil {
+		return err
+	}
+	return NewPathDecoder(PathDecoderConfig{Param: param, Value: u, Style: PathStyleSimple, Explode: explode}).DecodeArray(f)
+}
